@@ -7,11 +7,13 @@ CONSTANTS
   Excl = TRUE
   WinLock = FALSE
   Fault = "none"
+  StrictBackend = TRUE
+  DrainAfterDecode = TRUE
   ReadPolicy = "any"
   Modes <- ModesCt
   Levels <- LevelsOne
   Bits <- BitsOne
 VIEW StView
-INVARIANTS DictionariesEqual HeadDecodable ReadEqualsWrite InOrder NoInterleave NoDecodeFailure WindowIsSuffix NoWindowWithoutTakeover
+INVARIANTS NoReaderRefused DictionariesEqual HeadDecodable ReadEqualsWrite InOrder NoInterleave NoDecodeFailure WindowIsSuffix NoWindowWithoutTakeover
 
 CHECK_DEADLOCK FALSE
